@@ -63,7 +63,14 @@ type RPlan struct {
 	// the older one by the documented rule (numbers that far apart are
 	// ordered as a roll-over: the larger one is the older).
 	WideB uint32 `json:"wide_b,omitempty"`
-	Ops   []ROp  `json:"ops"`
+	// Scatter (3..5 disjoint clusters of sequence numbers, C01 only): offsets
+	// are dealt round-robin onto the bases, sequence = Scatter[off%k] + off/k.
+	// Numbers spread over more than one 2^24 window have no order (the
+	// documented comparison is not transitive there: with spacings just
+	// under 2^24 it is cyclic), so only what C01 promises - exactly once,
+	// grouped, in push order, not split - is judged in this mode.
+	Scatter []uint32 `json:"scatter,omitempty"`
+	Ops     []ROp    `json:"ops"`
 	// Fired counts, per stream-fault kind, how often the generator applied it
 	// while producing Ops (evidence only; stale after shrinking).
 	Fired []int `json:"fired,omitempty" shrink:"-"`
@@ -79,6 +86,23 @@ func (p *RPlan) Valid() bool {
 		}
 		if p.WideB != 0 && o.Off > 1 {
 			return false
+		}
+	}
+	if len(p.Scatter) != 0 {
+		if len(p.Scatter) < 3 || len(p.Scatter) > 5 || p.WideB != 0 {
+			return false
+		}
+		for i, a := range p.Scatter {
+			for _, b := range p.Scatter[:i] {
+				if d := a - b; d < 1<<17 || -d < 1<<17 {
+					return false // clusters must not overlap
+				}
+			}
+		}
+		for _, o := range p.Ops {
+			if o.Off >= 1<<16 {
+				return false
+			}
 		}
 	}
 	if p.WideB != 0 {
@@ -173,6 +197,30 @@ func GenRPlan(r *core.Rng, tilt int) *RPlan {
 		p.Ops = genChaos(r, p, fired)
 	} else {
 		p.Ops = genStream(r, p, tilt, fired)
+	}
+	if tilt == 0 && p.WideB == 0 && r.Chance(1, 10) {
+		// the same history dealt onto 3..5 far-apart clusters of sequence numbers
+		k := r.Range(3, 5)
+		b0 := core.Pick(r, uint32(5), 1<<32-(1<<24), r.U32())
+		// spacing: just inside one window (neighbours ordered plainly, the ends as a
+		// roll-over: a cycle), just outside, or spread over the whole number space
+		sp := core.Pick(r, uint32(1<<23), 1<<23+1<<22, 1<<24-1<<17, 1<<24+1<<17, 1<<25, uint32((1<<32)/k), uint32(r.Range(1<<18, 1<<26)))
+		for j := 0; j < k; j++ {
+			p.Scatter = append(p.Scatter, b0+uint32(j)*sp+uint32(r.Intn(1<<10)))
+		}
+		if r.Chance(1, 2) {
+			// in any order
+			for j := k - 1; j > 0; j-- {
+				i := r.Intn(j + 1)
+				p.Scatter[i], p.Scatter[j] = p.Scatter[j], p.Scatter[i]
+			}
+		}
+		for i := range p.Ops {
+			p.Ops[i].Off %= 1 << 12
+		}
+		if !p.Valid() {
+			p.Scatter = nil
+		}
 	}
 	p.Fired = fired
 	return p
